@@ -159,7 +159,8 @@ def chain_harness(typ, chain, active_kf, timeout=60):
     must = None
     for i, nm in enumerate(names):
         prev = names[:i]
-        if nm in prev or (nm == "call" and i > 0) or (nm == "regex" and any(x in prev for x in ("len", "alphabet", "contains"))) \
+        call_blocked = (nm == "call" and i > 0 and not (typ == "float" and all(x == "precision" for x in prev)))
+        if nm in prev or call_blocked or (nm == "regex" and any(x in prev for x in ("len", "alphabet", "contains"))) \
                 or (nm in ("len", "alphabet", "contains") and "regex" in prev):
             must = i
             break
